@@ -1,4 +1,6 @@
 // Inputs for the fixed grammars of the I/O jobs: valid documents, mutations, page-size paddings.
+#include <cstdio>
+
 #include "io.hpp"
 #include "prng.hpp"
 
@@ -67,7 +69,7 @@ namespace sim
          for( unsigned i = 0; i < n; ++i ) {
             o += ls[ r.below( r.chance( 4, 5 ) ? 13 : 19 ) ];
             if( i + 1 < n || r.chance( 2, 3 ) ) {
-               o += r.chance( 1, 3 ) ? "\r\n" : "\n";
+               o += r.chance( 1, 3 ) ? "\r\n" : ( r.chance( 1, 6 ) ? "\r" : "\n" );
             }
          }
          return o;
@@ -87,8 +89,42 @@ namespace sim
             s += r.chance( 1, 2 ) ? "\n" : "  ";
          }
       }
-      else {
+      else if( prog == 2 ) {
          s = lines_doc( r );
+      }
+      else if( prog == 3 ) {
+         static const char* ts[] = { "u12;", "u0;", "u01;", "u007;", "m99;", "m999;", "m1000;", "m0;", "m00;", "n7;", "n01;", "x100;", "x1000;", "x0", "u18446744073709551615;", "u18446744073709551616;", " ", "l5;", "l1000;", "l01;", "u;", "m", "n9", "x12" };
+         for( unsigned i = r.range( 1, 6 ); i > 0; --i ) {
+            s += ts[ r.below( sizeof( ts ) / sizeof( ts[ 0 ] ) ) ];
+         }
+      }
+      else if( prog == 4 ) {
+         static const char* ts[] = { "s-12;", "s+7;", "s0;", "s-0;", "s-01;", "s+01;", "s9223372036854775807;", "s9223372036854775808;", "s-9223372036854775808;", "s-9223372036854775809;", "t-5;", "t-05;", "t+;", "l-3;", "l-3!;", "l;", " ", "s-", "t12", "s--1;" };
+         for( unsigned i = r.range( 1, 6 ); i > 0; --i ) {
+            s += ts[ r.below( sizeof( ts ) / sizeof( ts[ 0 ] ) ) ];
+         }
+      }
+      else if( prog == 5 ) {
+         static const char* data[] = { "Wiki", "pedia", "x", "", "0123456789abcdef", "\r\n", "a;b=c" };
+         for( unsigned i = r.range( 0, 3 ); i > 0; --i ) {
+            const std::string d = data[ r.below( 7 ) ];
+            if( d.empty() ) {
+               continue;
+            }
+            char hex[ 32 ];
+            std::snprintf( hex, sizeof( hex ), r.chance( 1, 4 ) ? "%zX" : "%zx", r.chance( 1, 8 ) ? d.size() + 1 : d.size() );
+            s += hex;
+            if( r.chance( 1, 3 ) ) {
+               s += r.chance( 1, 2 ) ? ";ext=1" : ";q=\"v\"";
+            }
+            s += "\r\n" + d + "\r\n";
+         }
+         s += r.chance( 1, 4 ) ? "00" : "0";
+         s += "\r\n";
+         if( r.chance( 1, 3 ) ) {
+            s += "X-Trailer: v\r\n";
+         }
+         s += "\r\n";
       }
       // mutations
       if( r.chance( 2, 5 ) ) {
